@@ -9,6 +9,7 @@ import (
 
 	"verifharness/lib/kit"
 	"verifharness/lib/leak"
+	"verifharness/lib/sched"
 	"verifharness/lib/vh"
 )
 
@@ -18,8 +19,16 @@ import (
 // streams must be back at the baseline: growth with the number of cycles is a leak.
 func lifecycleBatch(rep *vh.Reporter, kind kit.Kind, n int) {
 	modes := []string{"close@right-after-initialize", "close@after-stream-registered", "close@after-one-call"}
+	if kind == kit.LSSE {
+		// Close while Initialize sits inside start(), past its "closed?" test and before the stream context is
+		// registered (yield point ssecli.start.beforeregister): Close finds nothing to cancel yet
+		modes = append(modes, "close@inside-start-before-stream-registered")
+	}
 	for _, reuse := range []bool{false, true} {
 		for _, mode := range modes {
+			if mode == "close@inside-start-before-stream-registered" && reuse {
+				continue
+			}
 			in := kit.Start(kind, kit.Opts{})
 			kit.StdFixture(in)
 			ctx, cancel := context.WithTimeout(context.Background(), 2*time.Minute)
@@ -47,6 +56,35 @@ func lifecycleBatch(rep *vh.Reporter, kind kit.Kind, n int) {
 							rep.Inconclusive("lifecycle: client: " + err.Error())
 							return false
 						}
+					}
+					if mode == "close@inside-start-before-stream-registered" {
+						const point = "ssecli.start.beforeregister"
+						ctl := sched.New(8*time.Second, 1)
+						ctl.Install()
+						ctl.Hold(point)
+						done := make(chan error, 1)
+						go func() { _, err := c.Initialize(ctx, &mcp.InitializeRequest{}); done <- err }()
+						if ctl.AwaitWaiting(point, 1, 5*time.Second) < 1 {
+							ctl.Release(point)
+							sched.Uninstall()
+							rep.Inconclusive("lifecycle: Initialize never reached " + point)
+							return false
+						}
+						okc, _, _ := closeClient(c)
+						ctl.Release(point)
+						sched.Uninstall()
+						if !okc {
+							rep.Violation(fmt.Sprintf("C08|%s|%s|reuse=%v|close-hangs", kind, mode, reuse), "Close did not return", nil)
+							return false
+						}
+						select {
+						case <-done:
+							rep.Count("lifecycle_close_inside_start_realised", 1)
+						case <-time.After(20 * time.Second):
+							rep.Violation(fmt.Sprintf("C08|%s|%s|pending=1|blocked-forever", kind, mode), "Initialize, overtaken by Close inside start(), had not returned 20 s after Close returned (context without deadline)", nil)
+							return false
+						}
+						continue
 					}
 					if _, err := c.Initialize(ctx, &mcp.InitializeRequest{}); err != nil {
 						if reuse && kind == kit.LSSE {
